@@ -14,6 +14,8 @@ Clauses(e) ==
     << <<"C10:OnePerNameHighestVersionEarliestOnTiesNamesByFirstOccurrence", Ds(e.got) = want /\ Ds(e.gotRender) = want /\ Ds(e.gotDoc) = want /\ Ds(e.gotDocGrown) = want>>,
        <<"C10:DedupDisabledDropsAndReordersNothing", Ds(e.gotNoDedup) = all /\ Ds(e.gotTagifiedNoDedup) = all>>,
        <<"C10:ResolutionIsIdempotent", Ds(e.gotTwice) = Ds(e.got)>>,
+       \* what a tree reports is collected from that tree (a document built from it is another container)
+       <<"C10:CollectedFromThatTreeOnly", e.fragSame>>,
        <<"DRIFT:ResolveCodeShape", Resolve(all) = Ds(e.got)>> >>
   ELSE
     << <<"C10:InvalidDefinitionRejectedAtConstruction", e.raised = ~DefOk(e.def)>>,
